@@ -23,6 +23,7 @@ import (
 type aval struct {
 	kind string // local remote registry final rpkg mpkg
 	v    any
+	how  []string // provenance: "parse:<parser>:<string>" then API operations (replayable, see addrPathHandler)
 }
 
 func urlKey(u *url.URL) string {
@@ -58,17 +59,17 @@ func (a aval) str() string { return a.v.(fmt.Stringer).String() }
 func mk(v any) aval {
 	switch v.(type) {
 	case sourceaddrs.LocalSource:
-		return aval{"local", v}
+		return aval{kind: "local", v: v}
 	case sourceaddrs.RemoteSource:
-		return aval{"remote", v}
+		return aval{kind: "remote", v: v}
 	case sourceaddrs.RegistrySource:
-		return aval{"registry", v}
+		return aval{kind: "registry", v: v}
 	case sourceaddrs.RegistrySourceFinal:
-		return aval{"final", v}
+		return aval{kind: "final", v: v}
 	case sourceaddrs.RemotePackage:
-		return aval{"rpkg", v}
+		return aval{kind: "rpkg", v: v}
 	case regaddr.ModulePackage:
-		return aval{"mpkg", v}
+		return aval{kind: "mpkg", v: v}
 	}
 	panic(fmt.Sprintf("mk %T", v))
 }
@@ -159,10 +160,16 @@ func versionsSet() []versions.Version {
 
 // successors applies every API operation to a value.
 func successors(a aval, remotes []sourceaddrs.RemoteSource) (out []aval, panics []string) {
-	add := func(v any) { out = append(out, mk(v)) }
+	curOp := ""
+	add := func(v any) {
+		n := mk(v)
+		n.how = append(append([]string{}, a.how...), curOp)
+		out = append(out, n)
+	}
 	try := func(name string, f func()) {
+		curOp = name
 		if p := guard(f); p != "" {
-			panics = append(panics, fmt.Sprintf("%s on %s {%s}: %s", name, a.kind, a.key(), p))
+			panics = append(panics, fmt.Sprintf("%s on %s {%s} (how: %s): %s", name, a.kind, a.key(), strings.Join(a.how, " -> "), p))
 		}
 	}
 	var rels []sourceaddrs.LocalSource
@@ -175,24 +182,24 @@ func successors(a aval, remotes []sourceaddrs.RemoteSource) (out []aval, panics 
 	case sourceaddrs.LocalSource, sourceaddrs.RemoteSource:
 		for _, r := range rels {
 			r := r
-			try("ResolveRelativeSource", func() {
+			try("rel:"+r.String(), func() {
 				if n, err := sourceaddrs.ResolveRelativeSource(v.(sourceaddrs.Source), r); err == nil {
 					add(n)
 				}
 			})
-			try("ResolveRelativeFinalSource", func() {
+			try("relfinal:"+r.String(), func() {
 				if n, err := sourceaddrs.ResolveRelativeFinalSource(v.(sourceaddrs.FinalSource), r); err == nil {
 					add(n)
 				}
 			})
 		}
 		if rs, ok := v.(sourceaddrs.RemoteSource); ok {
-			try("Package", func() { add(rs.Package()) })
+			try("package", func() { add(rs.Package()) })
 		}
 	case sourceaddrs.RegistrySource:
 		for _, r := range rels {
 			r := r
-			try("ResolveRelativeSource", func() {
+			try("rel:"+r.String(), func() {
 				if n, err := sourceaddrs.ResolveRelativeSource(v, r); err == nil {
 					add(n)
 				}
@@ -200,27 +207,27 @@ func successors(a aval, remotes []sourceaddrs.RemoteSource) (out []aval, panics 
 		}
 		for _, ver := range versionsSet() {
 			ver := ver
-			try("Versioned", func() { add(v.Versioned(ver)) })
+			try("versioned:"+ver.String(), func() { add(v.Versioned(ver)) })
 		}
-		try("Package", func() { add(v.Package()) })
+		try("package", func() { add(v.Package()) })
 		for _, rm := range remotes {
 			rm := rm
-			try("FinalSourceAddr", func() { add(v.FinalSourceAddr(rm)) })
+			try("finaladdr:"+rm.String(), func() { add(v.FinalSourceAddr(rm)) })
 		}
 	case sourceaddrs.RegistrySourceFinal:
 		for _, r := range rels {
 			r := r
-			try("ResolveRelativeFinalSource", func() {
+			try("relfinal:"+r.String(), func() {
 				if n, err := sourceaddrs.ResolveRelativeFinalSource(v, r); err == nil {
 					add(n)
 				}
 			})
 		}
-		try("Unversioned", func() { add(v.Unversioned()) })
-		try("Package", func() { add(v.Package()) })
+		try("unversioned", func() { add(v.Unversioned()) })
+		try("package", func() { add(v.Package()) })
 		for _, rm := range remotes {
 			rm := rm
-			try("FinalSourceAddr", func() { add(v.FinalSourceAddr(rm)) })
+			try("finaladdr:"+rm.String(), func() { add(v.FinalSourceAddr(rm)) })
 		}
 	case sourceaddrs.RemotePackage:
 		for _, s := range subSet {
@@ -228,15 +235,15 @@ func successors(a aval, remotes []sourceaddrs.RemoteSource) (out []aval, panics 
 			if !sourceaddrs.ValidSubPath(s) {
 				continue
 			}
-			try("RemotePackage.SourceAddr", func() { add(v.SourceAddr(s)) })
-			try("MakeRemoteSource", func() {
+			try("sourceaddr:"+s, func() { add(v.SourceAddr(s)) })
+			try("make:"+s, func() {
 				if n, err := sourceaddrs.MakeRemoteSource(v.SourceType(), v.URL(), s); err == nil {
 					add(n)
 				}
 			})
 		}
 	case regaddr.ModulePackage:
-		try("ParseRegistrySource(pkg.String())", func() {
+		try("regsrc", func() {
 			if n, err := sourceaddrs.ParseRegistrySource(v.String()); err == nil {
 				add(n)
 			}
@@ -365,7 +372,9 @@ func parseSeed(s string) (r seedResult) {
 		if p := guard(func() {
 			v, err := f()
 			if err == nil {
-				r.vals = append(r.vals, mk(v))
+				n := mk(v)
+				n.how = []string{"parse:" + name + ":" + s}
+				r.vals = append(r.vals, n)
 			}
 		}); p != "" {
 			r.panics = append(r.panics, fmt.Sprintf("%s(%q) panics: %s", name, s, p))
@@ -524,7 +533,7 @@ func RunC06(tier string) int {
 				rep.Sample(fmt.Sprintf("%s {%s} prints %q", a.kind, a.key(), s))
 			}
 			for _, v := range results[i] {
-				rep.Violation(c06Cause(a, v[0]), v[1], "", nil)
+				rep.Violation(c06Cause(a, v[0]), v[1]+" [how: "+strings.Join(a.how, " -> ")+"]", "addrpath", map[string]any{"how": a.how})
 			}
 		}
 	}
@@ -704,7 +713,7 @@ func RunC07(tier string) int {
 			pv := policyViolations(rs)
 			rep.Nontrivial(rs.String())
 			if len(pv) > 0 {
-				rep.Violation("sourceaddrs."+r.from[j]+"/"+strings.Join(pv, "+"), fmt.Sprintf("%s(%q) accepted as %q", r.from[j], seeds[i], rs.String()), "", nil)
+				rep.Violation("sourceaddrs."+r.from[j]+"/"+strings.Join(pv, "+"), fmt.Sprintf("%s(%q) accepted as %q", r.from[j], seeds[i], rs.String()), "addrpolicy", map[string]any{"parser": r.from[j], "s": seeds[i]})
 			}
 		}
 		if i%40009 == 0 && len(r.accepted) > 0 {
@@ -754,7 +763,7 @@ func RunC07(tier string) int {
 				nacc++
 				rep.Nontrivial("ctor:" + t + urlDesc[ui] + sp)
 				if pv := policyViolations(rs); len(pv) > 0 {
-					rep.Violation("sourceaddrs.MakeRemoteSource/"+strings.Join(pv, "+"), fmt.Sprintf("MakeRemoteSource(%q, %s, %q) accepted", t, urlDesc[ui], sp), "", nil)
+					rep.Violation("sourceaddrs.MakeRemoteSource/"+strings.Join(pv, "+"), fmt.Sprintf("MakeRemoteSource(%q, %s, %q) accepted", t, urlDesc[ui], sp), "addrpolicy", map[string]any{"parser": "MakeRemoteSource", "type": t, "url": u, "sub": sp})
 				}
 			}
 		}
@@ -1228,3 +1237,105 @@ func init() {
 		return map[string]any{"part": "address-parsers-token-strings", "strings": total, "accepted": acc, "max_tokens": maxLen, "alphabet": len(addrTokens), "kinds_reached": len(kinds)}
 	})
 }
+
+
+// ---------------------------------------------------------------------------
+// replay of one address value from its provenance (no explorer)
+
+func addrPathHandler(raw json.RawMessage) (any, error) {
+	var arg struct {
+		How []string `json:"how"`
+	}
+	if err := json.Unmarshal(raw, &arg); err != nil {
+		return nil, err
+	}
+	if len(arg.How) == 0 {
+		return nil, fmt.Errorf("empty provenance")
+	}
+	parts := strings.SplitN(arg.How[0], ":", 3)
+	if len(parts) != 3 || parts[0] != "parse" {
+		return nil, fmt.Errorf("bad provenance head %q", arg.How[0])
+	}
+	var cur aval
+	found := false
+	for _, v := range parseSeed(parts[2]).vals {
+		if v.how[0] == arg.How[0] {
+			cur, found = v, true
+		}
+	}
+	if !found {
+		return map[string]any{"error": "seed no longer accepted by " + parts[1]}, nil
+	}
+	var remotes []sourceaddrs.RemoteSource
+	for _, op := range arg.How[1:] {
+		if strings.HasPrefix(op, "finaladdr:") {
+			if r, err := sourceaddrs.ParseRemoteSource(strings.TrimPrefix(op, "finaladdr:")); err == nil {
+				remotes = append(remotes, r)
+			}
+		}
+	}
+	for _, op := range arg.How[1:] {
+		succ, _ := successors(cur, remotes)
+		ok := false
+		for _, n := range succ {
+			if n.how[len(n.how)-1] == op {
+				cur, ok = n, true
+				break
+			}
+		}
+		if !ok {
+			return map[string]any{"error": "operation " + op + " no longer yields a value"}, nil
+		}
+	}
+	s := ""
+	guard(func() { s = cur.str() })
+	return map[string]any{"kind": cur.kind, "value": cur.key(), "prints": s, "violations": checkRoundTrip(cur)}, nil
+}
+
+func init() { core.Register("addrpath", addrPathHandler) }
+
+
+func addrPolicyHandler(raw json.RawMessage) (any, error) {
+	var arg struct {
+		Parser string   `json:"parser"`
+		S      string   `json:"s"`
+		Type   string   `json:"type"`
+		URL    *url.URL `json:"url"`
+		Sub    string   `json:"sub"`
+	}
+	if err := json.Unmarshal(raw, &arg); err != nil {
+		return nil, err
+	}
+	var rs sourceaddrs.RemoteSource
+	var err error
+	switch arg.Parser {
+	case "MakeRemoteSource":
+		rs, err = sourceaddrs.MakeRemoteSource(arg.Type, arg.URL, arg.Sub)
+	case "ParseRemotePackage":
+		var p sourceaddrs.RemotePackage
+		p, err = sourceaddrs.ParseRemotePackage(arg.S)
+		if err == nil {
+			rs = p.SourceAddr("")
+		}
+	case "ParseRemoteSource":
+		rs, err = sourceaddrs.ParseRemoteSource(arg.S)
+	case "ParseFinalSource":
+		var v sourceaddrs.FinalSource
+		v, err = sourceaddrs.ParseFinalSource(arg.S)
+		if err == nil {
+			rs, _ = v.(sourceaddrs.RemoteSource)
+		}
+	default:
+		var v sourceaddrs.Source
+		v, err = sourceaddrs.ParseSource(arg.S)
+		if err == nil {
+			rs, _ = v.(sourceaddrs.RemoteSource)
+		}
+	}
+	if err != nil {
+		return map[string]any{"rejected": err.Error()}, nil
+	}
+	return map[string]any{"accepted_as": rs.String(), "policy_violations": policyViolations(rs)}, nil
+}
+
+func init() { core.Register("addrpolicy", addrPolicyHandler) }
